@@ -654,6 +654,27 @@ func runWindow(count int, args []string) {
 			wstart = []int64{math.MaxInt64 - 3*c.window - int64(rng.Intn(50)), math.MinInt64 + int64(rng.Intn(int(c.window)+1)+1)}[rng.Intn(2)]
 		}
 		ticks := genTicks(1+nops, c, wstart)
+		if !(len(args) > 0 && args[0] == "wrap") && !c.hugeWindow() && c.scale <= 1 && rng.Intn(600) == 0 {
+			// scale: more than a thousand buckets expire at one roll (every report at a reading below the current bucket's timestamp gets
+			// an instant bucket of its own); then further rolls. Budgets or batch sizes hidden in the trim loop are crossed here.
+			nb := []int{1030, 1100, 2100}[rng.Intn(3)]
+			nops = nb + 6
+			ops = make([]byte, nops)
+			ticks = make([]int64, 1+nops)
+			t0 := int64(1000000)
+			ticks[0] = t0
+			for i := 0; i < nb; i++ {
+				ops[i] = "sf"[rng.Intn(2)]
+				ticks[1+i] = t0 - 1 - int64(rng.Intn(int(c.interval)+50))
+			}
+			far := t0 + 3*c.window + 3*c.interval + 1
+			for i := nb; i < nops; i++ {
+				ops[i] = "sfsfsf"[i-nb]
+				far += c.interval
+				ticks[1+i] = far
+			}
+			stats["window.mass-expiry"]++
+		}
 		req := fmt.Sprintf("win %d %d ops %s ticks %s", c.window, c.interval, string(ops), i64s(ticks))
 		tk := &scriptTicker{script: ticks}
 		w, err := cbreaker.NewSlidingWindowCounter(tk, time.Duration(c.window), time.Duration(c.interval))
